@@ -47,6 +47,50 @@ pub open spec fn result_ty(op: BinaryOp, a: ValueType, b: ValueType) -> ValueTyp
 pub open spec fn result_ty_unary(op: UnaryOp) -> ValueType { match op { UnaryOp::Not => ValueType::Bool, UnaryOp::Minus => ValueType::Number } }
 // an inferred static type t covers a runtime type a
 pub open spec fn covers(t: ValueType, a: ValueType) -> bool { dynamic(t) || t == a }
+// ---- method argument typing on a statically typed receiver ------------------------------------------------------------------
+// static types of the call's argument expressions (`self.infer_expr_type(args.args[k])`); the shims' `requires` are the slice bounds
+pub struct SArgs { pub tys: Ghost<Seq<Option<ValueType>>> }
+impl SArgs {
+    pub open spec fn n(&self) -> nat { self.tys@.len() }
+    #[verifier::external_body]
+    pub fn len(&self) -> (r: usize) ensures r == self.n() { unimplemented!() }
+    #[verifier::external_body]
+    pub fn is_empty(&self) -> (r: bool) ensures r == (self.n() == 0) { unimplemented!() }
+    #[verifier::external_body]
+    pub fn ty_of(&self, k: usize) -> (r: Option<ValueType>) requires k < self.n() ensures r == self.tys@[k as int] { unimplemented!() }
+}
+// documented argument types; None = any type is fine
+pub open spec fn arg_ty(b: MemberBuiltin, k: int) -> Option<ValueType> {
+    match b {
+        MemberBuiltin::String(StringBuiltin::Find) | MemberBuiltin::String(StringBuiltin::Split) => if k == 0 { Some(ValueType::String) } else { None },
+        MemberBuiltin::String(StringBuiltin::Replace) => if k == 0 || k == 1 { Some(ValueType::String) } else { None },
+        MemberBuiltin::String(StringBuiltin::Slice) => if k == 0 || k == 1 { Some(ValueType::Number) } else { None },
+        MemberBuiltin::Array(ArrayBuiltin::Join) => if k == 0 { Some(ValueType::String) } else { None },
+        MemberBuiltin::ProcessCommand(ProcessCommandBuiltin::Cwd) | MemberBuiltin::ProcessCommand(ProcessCommandBuiltin::Env) => if k == 0 { Some(ValueType::String) } else { None },
+        MemberBuiltin::ProcessCommand(ProcessCommandBuiltin::TimeoutMs) => if k == 0 { Some(ValueType::Number) } else { None },
+        _ => None,
+    }
+}
+pub open spec fn member_arity(b: MemberBuiltin) -> nat {
+    match b {
+        MemberBuiltin::String(StringBuiltin::Slice) | MemberBuiltin::String(StringBuiltin::Replace) | MemberBuiltin::ProcessCommand(ProcessCommandBuiltin::Env) => 2,
+        MemberBuiltin::String(StringBuiltin::Find) | MemberBuiltin::String(StringBuiltin::Split) | MemberBuiltin::Array(ArrayBuiltin::Join)
+        | MemberBuiltin::Array(ArrayBuiltin::Push) | MemberBuiltin::ProcessCommand(ProcessCommandBuiltin::Cwd) | MemberBuiltin::ProcessCommand(ProcessCommandBuiltin::Arg)
+        | MemberBuiltin::ProcessCommand(ProcessCommandBuiltin::StdinText) | MemberBuiltin::ProcessCommand(ProcessCommandBuiltin::TimeoutMs) => 1,
+        _ => 0,
+    }
+}
+// argument k is statically wrong: it has a concrete static type different from the documented one
+pub open spec fn arg_wrong(b: MemberBuiltin, a: &SArgs, k: int) -> bool {
+    arg_ty(b, k) is Some && a.tys@[k] is Some && !dynamic(a.tys@[k]->Some_0) && a.tys@[k]->Some_0 != arg_ty(b, k)->Some_0
+}
+proof fn lemma_arg_ty_only_first_two(b: MemberBuiltin, a: &SArgs)
+    ensures (exists|k: int| 0 <= k && #[trigger] arg_wrong(b, a, k)) == (arg_wrong(b, a, 0) || arg_wrong(b, a, 1)),
+{
+    if !(arg_wrong(b, a, 0) || arg_wrong(b, a, 1)) {
+        assert forall|k: int| 0 <= k implies !#[trigger] arg_wrong(b, a, k) by { if k >= 2 { assert(arg_ty(b, k) is None); } }
+    }
+}
 pub open spec fn fits(s: ValueType, a: ValueType) -> bool { !dynamic(a) && (dynamic(s) || s == a) }
 
 // static_ok is exactly "some runtime instantiation is applicable" (so the table above is not an independent invention)
@@ -80,11 +124,17 @@ UNIT = VUnit(
     preamble="",
     trusted=["the arm's sub-expression checks and type inference (check_expr(lhs/rhs), infer_expr_type) are cut off: the block is verified as a function of the two inferred operand types",
              "emit_error(*span, TypeMismatch, ..) is reduced to `err = true` (R6)"],
-    lemma_obligations=["lemma_static_ok_is_existential"],
+    lemma_obligations=["lemma_static_ok_is_existential", "lemma_arg_ty_only_first_two"],
     items=[
         Enum("ValueType", source="src/helpers.rs", derive="#[derive(Clone, Copy)]", eq=True),
         Enum("BinaryOp", source="src/syntax/parser.rs"),
         Enum("UnaryOp", source="src/syntax/parser.rs"),
+        Enum("StringBuiltin", source="src/builtins/string.rs"),
+        Enum("ArrayBuiltin", source="src/builtins/array.rs"),
+        Enum("NumberBuiltin", source="src/builtins/number.rs"),
+        Enum("ProcessCommandBuiltin", source="src/builtins/process.rs"),
+        Enum("ProcessResultBuiltin", source="src/builtins/process.rs"),
+        Enum("MemberBuiltin", source="src/builtins/mod.rs"),
         Raw(SPEC),
         Block("binary_operand_rule", within="check_expr", impl="impl Resolver",
               anchor=r"Expr::Binary \{ op, lhs, rhs, span \} =>",
@@ -124,5 +174,32 @@ UNIT = VUnit(
               ensures=["static_ok_unary(op, t) ==> res == Some(result_ty_unary(op))"],
               rewrites=[Rw("R11b", r"let t = self\.infer_expr_type\(expr\)\?;", "")],
               real_name="Resolver::infer_expr_type (Expr::Unary arm)"),
+        Fn("expect_member_string_arg", impl="impl Resolver",
+           sig="fn expect_member_string_arg(arg: Option<ValueType>) -> (err: bool)",
+           expect_sig=r"fn expect_member_string_arg\(&mut self, field: &str, arg: ExprRef<'ast>, span: Span\)",
+           ensures=["err == (arg is Some && arg->Some_0 != ValueType::String && !dynamic(arg->Some_0))"],
+           rewrites=[Rw("R10", r"if let Some\(arg_ty\) = self\.infer_expr_type\(arg\)\s*&& ([^{]+?)\s*\{(.*?)\n        \}", r"let mut err = false;\n        if let Some(arg_ty) = arg { if \1 {\2\n        } }\n        err"),
+                     Rw("R6", r"self\.emit_error\(\s*span,.*?\}\],\s*\);?", "{ err = true; }", min_matches=1)],
+           vacuity="-", real_name="Resolver::expect_member_string_arg"),
+        Fn("expect_member_number_arg", impl="impl Resolver",
+           sig="fn expect_member_number_arg(arg: Option<ValueType>) -> (err: bool)",
+           expect_sig=r"fn expect_member_number_arg\(&mut self, field: &str, arg: ExprRef<'ast>, span: Span\)",
+           ensures=["err == (arg is Some && arg->Some_0 != ValueType::Number && !dynamic(arg->Some_0))"],
+           rewrites=[Rw("R10", r"if let Some\(arg_ty\) = self\.infer_expr_type\(arg\)\s*&& ([^{]+?)\s*\{(.*?)\n        \}", r"let mut err = false;\n        if let Some(arg_ty) = arg { if \1 {\2\n        } }\n        err"),
+                     Rw("R6", r"self\.emit_error\(\s*span,.*?\}\],\s*\);?", "{ err = true; }", min_matches=1)],
+           vacuity="-", real_name="Resolver::expect_member_number_arg"),
+        # with the right number of arguments, a method call on a statically typed receiver is rejected for its argument types
+        # exactly when some argument has a concrete static type different from the documented one
+        Block("member_arg_rule", within="check_expr", impl="impl Resolver",
+              anchor=r"match builtin (?=\{\s*MemberBuiltin::ProcessCommand\(ProcessCommandBuiltin::Cwd\))",
+              sig="fn member_arg_rule(builtin: MemberBuiltin, args: &SArgs) -> (err: bool)",
+              prologue="    let mut err = false;\n    match builtin {", epilogue="    }\n    err",
+              requires=["args.n() == member_arity(builtin)"], expand_or_guards=1,
+              # (no builtin documents a type beyond its second argument: lemma_arg_ty_only_first_two)
+              ensures=["err == (arg_wrong(builtin, args, 0) || arg_wrong(builtin, args, 1))"],
+              rewrites=[Rw("R11b", r"args\.args\.is_empty\(\)", "args.is_empty()", min_matches=0),
+                        Rw("R11b", r"args\.args\.len\(\)", "args.len()", min_matches=0),
+                        Rw("R9", r"self\.expect_member_(string|number)_arg\(field, args\.args\[(\d)\], \*span\);", r"if expect_member_\1_arg(args.ty_of(\2)) { err = true; }", min_matches=3)],
+              real_name="Resolver::check_expr (member call: argument typing rule)"),
     ],
 )
